@@ -67,8 +67,16 @@ func c14PartA(ctx *Ctx) (states, transitions int) {
 		rec = func(prefix []rune) {
 			if len(prefix) > 0 || ci == 0 {
 				s := string(prefix)
-				id := c.Identifierize(s)
+				id, pan := safeIdent(func() string { return c.Identifierize(s) })
 				total++
+				if pan != "" {
+					bad["panic"]++
+					if bad["panic"] <= 3 {
+						ctx.Run.Violation("identifier-panic", fmt.Sprintf("C14/A: Identifierize(%q) with capitalizations %q panics: %s", s, caps, pan),
+							map[string]any{"kind": "identifierize", "input": s, "capitalizations": caps, "panic": pan})
+					}
+					id = "Panicked" // already reported; keep the enumeration going
+				}
 				if !token.IsIdentifier(id) || !ast.IsExported(id) {
 					sig := "invalid"
 					if token.IsIdentifier(id) {
@@ -113,8 +121,13 @@ func c14PartA(ctx *Ctx) (states, transitions int) {
 	rec = func(prefix []rune) {
 		for _, ext := range []string{".json", ".yaml", "", ".txt"} {
 			name := string(prefix) + ext
-			id := c.IdentifierFromFileName("dir/" + name)
+			id, pan := safeIdent(func() string { return c.IdentifierFromFileName("dir/" + name) })
 			cntF++
+			if pan != "" {
+				ctx.Run.Violation("filename-identifier-panic", fmt.Sprintf("C14/A: IdentifierFromFileName(%q) panics: %s", name, pan),
+					map[string]any{"kind": "identifierize", "input": name, "panic": pan})
+				continue
+			}
 			if !token.IsIdentifier(id) || !ast.IsExported(id) {
 				ctx.Run.Violation("filename-identifier", fmt.Sprintf("C14/A: IdentifierFromFileName(%q) = %q is not a valid exported Go identifier", name, id),
 					map[string]any{"kind": "identifierize", "input": name, "result": id})
@@ -547,4 +560,14 @@ func c14PartC(ctx *Ctx) {
 	if err != nil {
 		harnessFail("pool: %v", err)
 	}
+}
+
+// safeIdent runs one call of the real naming code; a panic in it is an observation (the generator would crash on that name), not a harness fault.
+func safeIdent(f func() string) (id, panicked string) {
+	defer func() {
+		if r := recover(); r != nil {
+			panicked = fmt.Sprint(r)
+		}
+	}()
+	return f(), ""
 }
